@@ -14,7 +14,7 @@ ENGINE = 'E1'
 TECHNIQUE = 'bounded exhaustive enumeration of all custom tables (3..5 nodes over a 6-Mach x 3-CD alphabet) and the nine shipped tables at every critical point (nodes, midpoints, +-1 ulp, interior grid, beyond the table) against a Lagrange-parabola reference; band/positivity decided analytically per identified quadratic piece'
 RULE = ('shipped cells = 9 tables x BC {0.001,.223,1,12}; custom cells = every strictly ascending node set of size 3..5 over Mach {0,.5,1,1.2,2,5} and 5-node tables with nodes 0.005 / 0.001 Mach apart (incl. a dense cluster inside a coarse table) '
         'x CD in {.1,.3,.5}^n (4428 tables in the quick tier); each cell queries every node, node+-1ulp, every midpoint, midpoint+-1ulp, 15 interior points per '
-        'half interval and {1.5,3,10} x last node; rebind cells = one long-lived calculator, drag model BC / table edited in place or model replaced between calls x 3 tables x 3 BC pairs; api cell = all nine tables digested before/after a battery of public calls; '
+        'half interval and {1.5,3,10} x last node; sequence cells = six custom tables one after the other in temporaries / in one re-filled list; rebind cells = one long-lived calculator, drag model BC / table edited in place or model replaced between calls x 3 tables x 3 BC pairs; api cell = all nine tables digested before/after a battery of public calls; '
         'non-trivial = table with >= 4 nodes (so interior parabolas differ) or a shipped table')
 ASSUMPTIONS = ['published tables: identity with the pinned snapshot digest (golden/drag_tables.json) is what is checked, no independent copy exists offline',
                'the solver evaluates one quadratic per half interval (identified at 17+ points per piece, then bounded in closed form)',
@@ -338,7 +338,39 @@ def rebind(cell):
     return {'v': out, 'n': 3, 'nt': cell}
 
 
-PARTS = {'shipped': shipped, 'custom': custom, 'api': api, 'rebind': rebind}
+SEQ_TABLES = [([0, 1, 2, 5], [0.1, 0.3, 0.5, 0.3]), ([0.5, 1, 1.2, 2], [0.5, 0.1, 0.3, 0.1]), ([0, 0.5, 1, 1.2, 5], [0.3, 0.3, 0.5, 0.1, 0.1]),
+              ([0, 1, 2, 5], [0.5, 0.1, 0.1, 0.5]), ([1, 1.2, 2], [0.1, 0.5, 0.3]), ([0, 0.5, 1, 2, 5], [0.1, 0.5, 0.1, 0.5, 0.1])]
+
+
+def sequence(cell):
+    """"any custom table": also the one a program builds after it has thrown another one away, or in a list it re-fills in place - custom tables
+    are temporaries. Six tables one after the other, (temps) each in a new list that is dropped afterwards, so that addresses get re-used,
+    (refill) all in one list object emptied and re-filled; every one checked like a custom cell."""
+    import gc
+    kind, bc, order = cell
+    seq = [SEQ_TABLES[i] for i in order]
+    out = []
+    nq = 0
+    work = []
+    for rnd in range(2):
+        for ms, cds in seq:
+            if kind == 'temps':
+                tab = [{'Mach': m, 'CD': c} for m, c in zip(ms, cds)]
+            else:
+                work.clear()
+                work.extend({'Mach': m, 'CD': c} for m, c in zip(ms, cds))
+                tab = work
+            o, n = check_table(tab, bc, f'{kind} sequence, table {ms} {cds}')
+            nq += n
+            out += o
+            del tab
+            gc.collect()
+            if out:
+                break
+    return {'v': out[:3], 'n': nq, 'nt': cell}
+
+
+PARTS = {'shipped': shipped, 'custom': custom, 'api': api, 'rebind': rebind, 'sequence': sequence}
 MACHS = (0, 0.5, 1, 1.2, 2, 5)
 CDS = (0.1, 0.3, 0.5)
 
@@ -363,4 +395,5 @@ def plan(tier):
             for cds in itertools.product((0.2, 0.6), repeat=4):
                 cu.append([list(ms), list(cds)])
     rb = [[t, b1, b2, k] for t in ('G7', 'G1', 'RA4') for b1, b2 in ((0.3, 0.22), (0.22, 0.45), (1.0, 0.1)) for k in ('set_bc', 'new_model', 'new_ammo', 'edit_table')]
-    return [('shipped', sh), ('custom', cu), ('api', [0]), ('rebind', rb)]
+    sq = [[kind, bc, list(order)] for kind in ('temps', 'refill') for bc in (0.223, 1.0) for order in ((0, 1, 2, 3, 4, 5), (5, 3, 1, 4, 2, 0), (0, 3, 0, 3, 1, 1))]
+    return [('shipped', sh), ('custom', cu), ('api', [0]), ('rebind', rb), ('sequence', sq)]
